@@ -218,7 +218,22 @@ func genQual(r *core.RNG) qualSpec {
 		return qualSpec{unknownNames[r.Intn(len(unknownNames))], genText(r, 1, 4)}
 	}
 	n := quotedNames[r.Intn(len(quotedNames))]
-	switch r.Intn(6) {
+	switch r.Intn(8) {
+	case 6: // several lines of uneven length, some of them short
+		var ls []string
+		for i := r.Range(2, 5); i > 0; i-- {
+			switch r.Intn(4) {
+			case 0:
+				ls = append(ls, words[r.Intn(len(words))])
+			case 1:
+				ls = append(ls, "x")
+			default:
+				ls = append(ls, genText(r, 2, 9))
+			}
+		}
+		return qualSpec{n, strings.Join(ls, "\n")}
+	case 7: // paragraphs: a blank line inside the value
+		return qualSpec{n, genText(r, 2, 6) + "\n\n" + genText(r, 1, 5) + "\n" + genText(r, 3, 8)}
 	case 0:
 		return qualSpec{n, ""}
 	case 1: // a value long enough to be written on several lines
